@@ -22,7 +22,7 @@ EvVerdict(cfg, st, e, k) ==
      ELSE IF <<e.inX, e.inD, e.outP, e.outX, e.outD>> # <<n.inX[c], n.inD[c], n.outP[c] /\ kk.hasout, n.outX[c], n.outD[c]>>
           THEN Fail("connect-fixpoint", k)
      ELSE IF kk.hasout /\ Targets(cfg, c) # {} /\ e.pubs # n.pubs[c] THEN Fail("double-initial-push", k)
-     ELSE IF n.inD[c] /\ e.tok # 1000 * kk.src + cfg.comps[kk.src].off THEN Fail("initial-pull-value", k)
+     ELSE IF n.inD[c] /\ ~st.inD[c] /\ e.tok # InitTok(cfg, n, kk.src) THEN Fail("initial-pull-value", k)
      ELSE "ok"
 
 EndVerdict(cfg, st, en, k) ==
